@@ -123,6 +123,10 @@ func (e *endpoint) MaxHeaderLength() uint16 {
 // 将传输层的数据封装加上IP头，并调用网卡的写入接口，写入IP报文
 func (e *endpoint) WritePacket(r *stack.Route, hdr buffer.Prependable, payload buffer.VectorisedView,
 	protocol tcpip.TransportProtocolNumber, ttl uint8) *tcpip.Error {
+	// The packet must be describable by the 16-bit total length field.
+	if header.IPv4MinimumSize+hdr.UsedLength()+payload.Size() > maxTotalSize {
+		return tcpip.ErrMessageTooLong
+	}
 	// 预留ip报文的空间 在传输层头部加上ip头最少20字节预留
 	ip := header.IPv4(hdr.Prepend(header.IPv4MinimumSize))
 	length := uint16(hdr.UsedLength() + payload.Size())
